@@ -107,6 +107,7 @@ def run(ctx):
     n_mesh = 6 if quick else 40
     exprs, plans = [], []
     fill_exprs, fill_plans = [], []
+    edge_exprs, edge_plans = [], []
     for mi in range(n_mesh):
         nodes, faces = gen.lattice_mesh(rng, w=rng.randint(1, 3), h=rng.randint(1, 3)) if mi else \
             gen.lattice_mesh(rng, w=2, h=2, variety=False, drop=False)
@@ -186,6 +187,26 @@ def run(ctx):
             if topo.has_edge_dimension != s['has_edge_dim']:
                 ctx.report('property', f'has_edge_dimension={topo.has_edge_dimension}, expected {s["has_edge_dim"]}', case)
                 continue
+            # which dimension numbers the edges / the faces (model EdgeDim; dimension names as numbers)
+            dimno = {}
+            def dn(x):      # noqa: E306
+                return dimno.setdefault(str(x), len(dimno) + 1)
+            mattrs = d.ds['Mesh2'].attrs
+            def tab(role):      # noqa: E306
+                nm_ = mattrs.get(role)
+                if nm_ is None or nm_ not in d.ds.variables:
+                    return 'None'
+                return f'(Some ({dn(d.ds[nm_].dims[0])}, {dn(d.ds[nm_].dims[1])}))'
+            fn_dims = d.ds[mattrs['face_node_connectivity']].dims
+            mlit = (f"{{| edge_dim_attr := {'None' if 'edge_dimension' not in mattrs else '(Some ' + str(dn(mattrs['edge_dimension'])) + ')'}; "
+                    f"edge_node := {tab('edge_node_connectivity')}; edge_face := {tab('edge_face_connectivity')}; "
+                    f"face_dim_attr := {'None' if 'face_dimension' not in mattrs else '(Some ' + str(dn(mattrs['face_dimension'])) + ')'}; "
+                    f"face_node := ({dn(fn_dims[0])}, {dn(fn_dims[1])}) |}}")
+            ed_impl = attempt(lambda: topo.edge_dimension)
+            edge_plans.append((case, (bool(topo.has_edge_dimension), Some(dn(ed_impl[1])) if ed_impl[0] == 'ok' else None, dn(topo.face_dimension)),
+                               (dn(s['dims']['edge']) if s['has_edge_dim'] else None, dn(s['dims']['face']))))
+            edge_exprs.append(f'(let m := {mlit} in (EdgeDim.has_edge_dimension m, EdgeDim.edge_dimension m, EdgeDim.face_dimension m, '
+                              f'EdgeDim.edge_dimension_last m))')
             # model: decode of the raw stored cells
             da = d.ds[VARNAME['face_node']]
             e_model = [f'(to_index_array {encoding_literal(da, si, tr)} {to_coq(raw_cells(da))})']
@@ -295,6 +316,21 @@ def run(ctx):
                            (999999, 10, 3), (1000000, 10, 3), (5, 99999, 10), (7, 100000, 10)]:
         fill_exprs.append(f'(sensible_fill {nc_} {fc_} {mnc_})')
         fill_plans.append(({'counts': [nc_, fc_, mnc_]}, int('9' * (len(str(max(nc_, fc_ * mnc_))) + 1))))
+    medge = coq_eval_sharded(['Model.EdgeDim'], edge_exprs, shard=60, workers=4)
+    ctx.leg('edge and face dimension lookups', len(edge_exprs))
+    for (case, impl_, want_), mres in zip(edge_plans, medge):
+        ((m_has, m_ed), m_fd), m_last = mres
+        got = (impl_[0], None if impl_[1] is None else impl_[1].v, impl_[2])
+        mod = (bool(m_has), None if m_ed is None else m_ed.v, m_fd)
+        if got != mod:
+            ctx.report('correspondence', f'model EdgeDim (has_edge_dimension, edge_dimension, face_dimension) = {mod}, implementation {got}',
+                       case, found_input=False)
+        elif (got[1], got[2]) != want_:
+            ctx.report('property', f'the edges / faces of the mesh written are numbered by dimensions {want_}, the convention takes {got[1:]}', case)
+        elif (None if m_last is None else m_last.v) != mod[1]:
+            # (the generated meshes are valid UGRID: by theorem C10_edge_table_order_irrelevant_on_valid_meshes the order in which the
+            # edge tables are consulted cannot matter on them; a generator that produced such a mesh would be at fault)
+            ctx.report('harness', 'a generated mesh stores an edge table the other way round without naming the edge dimension', case)
     mfill = coq_eval_sharded(['Model.Fill'], fill_exprs, shard=60, workers=4)
     ctx.leg('fill_values', len(fill_exprs))
     for (fcase, fillv), mv in zip(fill_plans, mfill):
